@@ -660,7 +660,12 @@ func (g *schemaGenerator) generateStructType(t *schemas.Type, scope nameScope) (
 		requiredNames[r] = true
 	}
 
-	uniqueNames := make(map[string]int, len(t.Properties))
+	// The members that the generated code itself gives to the struct are taken: a property
+	// that maps to one of them is renamed like any other duplicate field.
+	uniqueNames := map[string]int{"UnmarshalJSON": 1, "UnmarshalYAML": 1}
+	if t.AdditionalProperties != nil && t.AdditionalProperties.Not == nil {
+		uniqueNames[additionalProperties] = 1
+	}
 
 	var structType codegen.StructType
 
